@@ -145,6 +145,143 @@ fn body_with_capacity(b: &[u8], total: usize, rel: u64) -> Vec<u8> {
     v
 }
 
+/// (0) Error responses for requests whose QUERY bytes are arbitrary (not UTF-8, embedded NUL, a nested frame image, ...)
+/// under several query-format codes, through the owned and the borrowed server-side error routes: the public owned
+/// constructor `create_error_response_like`, a router's JSON handler that returns an application error / rejects the body
+/// called through `HandlerErased::handle` (owned request) and through `HandlerErased::handle_view` (borrowed request; the
+/// query-less response is framed with the borrowed request query by the public streaming writer, as the transports do).
+/// The emitted frame must equal the spec frame of the logical response: canonical v1 header with the request's id, the
+/// error code, UTF-8 body format, the REQUEST'S QUERY BYTES VERBATIM and the message as body (the query-format code of an
+/// error response is not prescribed by the statement: the emitted one is taken over).
+fn error_routes(rep: &mut Report, args: &Args, miri: bool, rng: &mut Rng) {
+    use repe::server::Router;
+    use repe::{CallContext, ErrorCode};
+    let nested = oracle::frame(SpecHeader { spec: oracle::SPEC, version: 1, id: 7, query_format: 1, body_format: 2, ..Default::default() }, b"/inner", b"{\"x\":1}");
+    let mut queries: Vec<(&'static str, Vec<u8>)> = vec![
+        ("empty", vec![]),
+        ("ascii", b"/plain/path".to_vec()),
+        ("utf8-multibyte", "/é€😀/größe".as_bytes().to_vec()),
+        ("byte-ff", vec![0xFF]),
+        ("ff-inside-path", b"/a\xFFb".to_vec()),
+        ("truncated-2-byte", b"/caf\xC3".to_vec()),
+        ("truncated-3-byte", vec![0xE2, 0x82]),
+        ("truncated-4-byte", b"/x\xF0\x9F\x98".to_vec()),
+        ("encoded-surrogate", b"/\xED\xA0\x80x".to_vec()),
+        ("overlong", vec![0xC0, 0xAF]),
+        ("lone-continuation", vec![0x80, 0x80, b'/']),
+        ("embedded-nul", b"/a\0b\0".to_vec()),
+        ("nested-frame", nested),
+    ];
+    for (name, len) in [("random-1", 1usize), ("random-47", 47), ("random-48", 48), ("random-49", 49), ("random-255", 255), ("random-8192", 8192)] {
+        if !(miri && len > 64) {
+            queries.push((name, rng.bytes(len)));
+        }
+    }
+    if miri {
+        // under Miri every frame costs ~0.4 s: four of the non-UTF-8 classes (chosen by the seed), one query-format code
+        // each, and the three routes that differ in kind (owned constructor, owned handler error, borrowed handler error)
+        let mut hostile: Vec<(&'static str, Vec<u8>)> = queries.into_iter().filter(|(_, q)| std::str::from_utf8(q).is_err() && q.len() <= 64).collect();
+        rng.shuffle(&mut hostile);
+        hostile.truncate(4);
+        queries = hostile;
+    }
+    let err_code = ErrorCode::ApplicationErrorBase;
+    let err_msg = "c01: scripted handler error — ünï";
+    let router = Router::new().with_json("/e", move |_v| Err((err_code, err_msg.to_string())));
+    let Some(handler) = router.get("/e") else {
+        rep.inconclusive("error routes: the router does not return the handler just registered");
+        return;
+    };
+    let qfs: Vec<u16> = if miri { vec![*rng.pick(&[0u16, 1, 0xFFFF])] } else { vec![0, 1, 2, 0x00FF, 0x8000, 0xFFFF, rng.boundary_u16()] };
+    let codes = [ErrorCode::InvalidBody, ErrorCode::InternalError, ErrorCode::MethodNotFound, ErrorCode::ApplicationErrorBase];
+    for (qi, (qname, q)) in queries.iter().enumerate() {
+        let valid_utf8 = std::str::from_utf8(q).is_ok();
+        for (fi, &qf) in qfs.iter().enumerate() {
+            let id = rng.boundary_u64();
+            let code = codes[(qi + fi) % codes.len()];
+            let msg = if (qi + fi) % 3 == 0 { String::new() } else { format!("error text {qi}/{fi} ✓") };
+            // the request: a JSON body for the handler-error routes, an unknown body format for the bad-body routes
+            let good = Message::builder().id(id).query_format_code(qf).query_bytes(q.clone()).body_format_code(2).body_bytes(b"{\"k\":1}".to_vec()).build();
+            let bad = Message::builder().id(id).query_format_code(qf).query_bytes(q.clone()).body_format_code(0x7777).body_bytes(vec![1, 2, 3]).build();
+            let (good_bytes, bad_bytes) = (good.to_vec(), bad.to_vec());
+            // route -> (emitted frame, expected ec, expected body; None = taken from the emitted response)
+            type Emitted = (Vec<u8>, Option<u32>, Option<Vec<u8>>);
+            let mut routes: Vec<(&'static str, Result<Result<Emitted, String>, String>)> = vec![];
+            routes.push(("create_error_response_like/to_vec", catching(|| Ok((repe::message::create_error_response_like(&good, code, &msg).to_vec(), Some(u32::from(code)), Some(msg.as_bytes().to_vec()))))));
+            if !miri {
+                routes.push(("create_error_response_like/into_wire_bytes", catching(|| Ok((repe::message::create_error_response_like(&bad, code, &msg).into_wire_bytes(), Some(u32::from(code)), Some(msg.as_bytes().to_vec()))))));
+            }
+            routes.push(("owned-handler-error", catching(|| handler.handle(&good).map(|m| (m.to_vec(), Some(u32::from(err_code)), Some(err_msg.as_bytes().to_vec()))).map_err(|e| e.to_string()))));
+            if !miri {
+                routes.push(("owned-handler-bad-body", catching(|| handler.handle(&bad).map(|m| (m.to_vec(), None, None)).map_err(|e| e.to_string()))));
+            }
+            let via_view = |bytes: &[u8], ec: Option<u32>, body: Option<Vec<u8>>| -> Result<Emitted, String> {
+                let view = MessageView::from_slice_exact(bytes).map_err(|e| e.to_string())?;
+                let resp = handler.handle_view(&view, &CallContext::detached("/e")).map_err(|e| e.to_string())?;
+                let echo: &[u8] = if resp.query.is_empty() { view.query } else { &resp.query };
+                let mut out = vec![];
+                repe::write_message_streaming(&mut out, resp.header, echo, resp.body.len() as u64, |w| w.write_all(&resp.body)).map_err(|e| e.to_string())?;
+                Ok((out, ec, body))
+            };
+            routes.push(("borrowed-handler-error", catching(|| via_view(&good_bytes, Some(u32::from(err_code)), Some(err_msg.as_bytes().to_vec())))));
+            if !miri {
+                routes.push(("borrowed-handler-bad-body", catching(|| via_view(&bad_bytes, None, None))));
+            }
+            for (route, got) in routes {
+                rep.eval();
+                rep.count("error_route_frames", 1);
+                if !valid_utf8 {
+                    rep.count("error_route_frames_non_utf8_query", 1);
+                }
+                rep.distinct(&("error-route", route, *qname, qf.min(3)));
+                let desc = json!({"stage": "error-routes", "seed": args.seed, "route": route, "query_class": qname, "query_hex": hex_trunc(q, 64), "query_format": qf, "request_id": id});
+                match got {
+                    Ok(Ok((bytes, ec, body))) => {
+                        if bytes.len() < 48 {
+                            rep.violation(format!("C01:error-route:{route}:short-frame"), format!("{route} emitted {} bytes", bytes.len()), desc);
+                            continue;
+                        }
+                        let g = SpecHeader::decode(&bytes);
+                        let body = body.unwrap_or_else(|| bytes[(48 + g.query_length as usize).min(bytes.len())..].to_vec());
+                        let want = oracle::frame(SpecHeader { spec: oracle::SPEC, version: 1, notify: 0, reserved: 0, id, query_format: g.query_format, body_format: 3, ec: ec.unwrap_or(g.ec), ..Default::default() }, q, &body);
+                        if bytes != want {
+                            let field = first_diff_field(&bytes, &want);
+                            let utf = if valid_utf8 { "utf8-query" } else { "non-utf8-query" };
+                            rep.violation(
+                                format!("C01:error-route:{route}:{utf}:{field}"),
+                                format!("{route}: the error response to a request with query {} ({qname}, query format {qf}) differs from the spec frame that echoes the query verbatim in `{field}`: got {} bytes, header {g:?}, query part {}; want {} bytes, query part {}", hex_trunc(q, 32), bytes.len(), hex_trunc(&bytes[48..(48 + g.query_length as usize).min(bytes.len())], 32), want.len(), hex_trunc(q, 32)),
+                                desc,
+                            );
+                        }
+                    }
+                    Ok(Err(e)) => rep.violation(format!("C01:error-route:{route}:no-frame"), format!("{route} returned an error instead of an error response: {e}"), desc),
+                    Err(p) => rep.violation(format!("C01:error-route:{route}:panic"), p, desc),
+                }
+            }
+        }
+    }
+}
+
+fn first_diff_field(got: &[u8], want: &[u8]) -> &'static str {
+    let (g, w) = (SpecHeader::decode(got), SpecHeader::decode(want));
+    if g.id != w.id {
+        "id"
+    } else if g.query_length != w.query_length {
+        "query_length"
+    } else if g.length != w.length {
+        "length"
+    } else if g.body_length != w.body_length {
+        "body_length"
+    } else if g.encode() != w.encode() {
+        "header"
+    } else if got.len() != want.len() {
+        "frame-size"
+    } else {
+        let ql = (w.query_length as usize).min(got.len() - 48);
+        if got[48..48 + ql] != want[48..48 + ql] { "query" } else { "body" }
+    }
+}
+
 pub fn run(args: &Args) -> Report {
     #[cfg(feature = "net")]
     if args.stage == "c01cli" {
@@ -173,6 +310,7 @@ pub fn run(args: &Args) -> Report {
     }
     let rt = tokio::runtime::Builder::new_current_thread().build().unwrap();
     quiet_panics(true);
+    error_routes(&mut rep, args, miri, &mut rng.fork(0xE44));
     for case in 0..n {
         let mut r = rng.fork(case);
         let hs = gen_header(&mut r);
